@@ -105,6 +105,22 @@ def mzi_programs():
             steps.append({"kind": "probe", "targets": [0], "expect": [c2, s2], "note": f"MZI phi={phi:.3f} mode a"})
             steps.append({"kind": "probe", "targets": [2], "expect": [s2, c2], "note": f"MZI phi={phi:.3f} mode b"})
             progs.append({"seed": 5, "contraction": True, "focus": "C11", "setup": {"envs": [{"fock": 1, "pol": "H"}, {"fock": 0, "pol": "H"}], "customs": [], "composites": [["e0", "e1"]]}, "steps": steps})
+    # a phase shifter on a mode with number coherences that sits inside a *combined envelope* (vector and
+    # density-matrix level, every entry point), then the splitter: judged against the specification
+    h2 = [[[2 ** -0.5, 0.0], [2 ** -0.5, 0.0]], [[2 ** -0.5, 0.0], [-(2 ** -0.5), 0.0]]]
+    for k, phi in enumerate([math.pi / 2, -1.1, 2.7]):
+        for level in ("vector", "matrix"):
+            for en in ("state", "env", "ce"):
+                steps = [{"kind": "struct", "what": "set_contraction", "on": False},
+                         {"kind": "op", "targets": [0], "entry": "state", "gate": "FockCustom", "U": h2},
+                         {"kind": "op", "targets": [2], "entry": "state", "gate": "FockCustom", "U": h2},
+                         {"kind": "op", "targets": [1], "entry": "state", "gate": "RY", "params": {"theta": 0.9}},
+                         {"kind": "struct", "what": "env_combine", "env": 0}]
+                if level == "matrix":
+                    steps.append({"kind": "struct", "what": "expand", "entry": "env", "targets": [0]})
+                steps.append({"kind": "op", "gate": "PhaseShift", "targets": [0], "entry": en, "h": 0, "params": {"phi": phi}})
+                steps.append({"kind": "op", "gate": "BS", "targets": [0, 2], "entry": "ce", "h": 0, "params": {"eta": math.pi / 4}})
+                progs.append({"seed": 5, "contraction": False, "focus": "C11", "setup": {"envs": [{"fock": 0, "pol": "H", "fdim": 2}, {"fock": 0, "pol": "H", "fdim": 2}], "customs": [], "composites": [["e0", "e1"]]}, "steps": steps})
     return progs
 
 
